@@ -1,10 +1,10 @@
 #!/bin/sh
 # usage: tools/try_patch.sh <patch.diff> <ID> [tier]   - run a check against a scratch worktree of /repo
-# with the patch applied (outside /repo and /verif); the worktree is removed afterwards.
+# (BASE=<commit-ish> selects the base, default /repo HEAD) with the patch applied (outside /repo and /verif); the worktree is removed afterwards.
 set -u
 PATCH=$(realpath "$1"); ID=$2; TIER=${3:-quick}
 WT=$(mktemp -d /tmp/sc3wt.XXXXXX)
-git -C /repo worktree add --detach "$WT" HEAD >/dev/null 2>&1 || exit 3
+git -C /repo worktree add --detach "$WT" "${BASE:-HEAD}" >/dev/null 2>&1 || exit 3
 if ! git -C "$WT" apply "$PATCH"; then echo "patch does not apply"; git -C /repo worktree remove --force "$WT"; exit 3; fi
 cd "$(dirname "$0")/.."
 SC3_REPO="$WT" VERIF_SCRATCH=1 ./check "$ID" --tier "$TIER"
